@@ -34,10 +34,10 @@ def cases(tier, seed):
             if tier == 'quick' and (n * 7 + int(-np.log10(a) * 3)) % 3:
                 continue
             cs.append(dict(kind='mat', n=n, alpha=a, M=int(rng.integers(1, 6)), _cost=n))
-    for i in range(120 if tier == 'quick' else 2400):
+    for i in range(120 if tier == 'quick' else 12000):
         cs.append(dict(kind='sweep', M=int(rng.integers(1, 6)), n=int(rng.integers(1, 5)), L=int(rng.integers(1, 17)), alpha=float(alphas[int(rng.integers(1, len(alphas)))]),
                        ident=bool(rng.random() < 0.3), ignore_ic=bool(rng.random() < 0.5), imex=bool(rng.random() < 0.4), dtexp=float(rng.uniform(-2.5, 0)), seed=int(rng.integers(0, 2**31)), _cost=5))
-    for i in range(70 if tier == 'quick' else 1200):
+    for i in range(70 if tier == 'quick' else 6000):
         L = int(rng.choice([1, 2, 3, 4, 5, 8, 12, 16]))
         cs.append(dict(kind='run', L=L, M=int(rng.integers(1, 6)), alpha=float(alphas[int(rng.integers(1, len(alphas)))]), prob=['dahlquist', 'dahlquist_imex', 'heat', 'heatf', 'adv'][i % 5],
                        avg=bool(rng.random() < 0.5), blocks=int(rng.integers(1, 3)), dtexp=float(rng.uniform(-2.5, -0.7)), seed=int(rng.integers(0, 2**31)), _cost=L * 6))
@@ -292,6 +292,50 @@ def run_run(case, r):
             cur['which'] = None
 
     ctrl.FFT_in_time, ctrl.iFFT_in_time = fft_in_time, ifft_in_time
+    # ---- one ParaDiag iteration == one alpha-circulant preconditioned Richardson step on the all-at-once collocation system
+    # (decided on every iteration, whether or not the run converges)
+    twin_it = pc(**pp)
+    A_it, B_it, g_it = linearize(twin_it, 0.0)
+    Af_it = np.asarray(A_it + B_it, dtype=complex)
+    n_it = Af_it.shape[0]
+    gen_it = ref.coll(M, 'LEGENDRE', 'RADAU-RIGHT')
+    Q_it, nodes_it = np.array(gen_it.Q), np.array(gen_it.nodes)
+    Hm = np.zeros((M, M))
+    Hm[:, -1] = 1.0
+    E = np.diag(np.ones(L - 1), -1) if L > 1 else np.zeros((1, 1))
+    Ea = E.astype(complex).copy()
+    Ea[0, -1] += alpha
+    blk = np.eye(M * n_it) - dt * np.kron(Q_it, Af_it)
+    Cm = np.kron(np.eye(L), blk) - np.kron(E, np.kron(Hm, np.eye(n_it)))
+    # the local solves go through solve_jacobian = solve_system: the implicit piece only (the explicit piece lives in the residual)
+    Pm = np.kron(np.eye(L), np.eye(M * n_it) - dt * np.kron(Q_it, np.asarray(A_it, dtype=complex))) - np.kron(Ea, np.kron(Hm, np.eye(n_it)))
+    condP = float(np.linalg.cond(Pm))
+    orig_it = ctrl.it_ParaDiag
+    itmon = dict(n=0, worst=0.0)
+
+    def it_paradiag(local_MS_running):
+        run_ = list(local_MS_running)
+        ok_shape = len(run_) == L and [S_.status.slot for S_ in run_] == list(range(L))
+        if ok_shape:
+            Uold = np.array([[np.asarray(S_.levels[0].u[m + 1]).reshape(-1) for m in range(M)] for S_ in run_], dtype=complex)
+            ublock = np.asarray(run_[0].levels[0].u[0]).reshape(-1).astype(complex)
+            t_blk = run_[0].levels[0].time
+        out = orig_it(local_MS_running)
+        if ok_shape and condP < 1e9:
+            Unew = np.array([[np.asarray(S_.levels[0].u[m + 1]).reshape(-1) for m in range(M)] for S_ in run_], dtype=complex)
+            b = np.zeros((L, M, n_it), dtype=complex)
+            for l in range(L):
+                Gl = np.array([g_it(t_blk + l * dt + dt * c) for c in nodes_it], dtype=complex).reshape(M, n_it)
+                b[l] = dt * (Q_it @ Gl)
+            b[0] += ublock[None, :]
+            res_ = b.reshape(-1) - Cm @ Uold.reshape(-1)
+            exp_ = Uold.reshape(-1) + np.linalg.solve(Pm, res_)
+            sc_ = max(1.0, float(np.max(np.abs(exp_))))
+            itmon['worst'] = max(itmon['worst'], float(np.max(np.abs(Unew.reshape(-1) - exp_))) / sc_)
+            itmon['n'] += 1
+        return out
+
+    ctrl.it_ParaDiag = it_paradiag
     P = ctrl.MS[0].levels[0].prob
     u0 = P.u_exact(0.0)
     Tend = case['blocks'] * L * dt
@@ -305,6 +349,10 @@ def run_run(case, r):
     r.check(seen['fft'] > 0 and seen['ifft'] > 0, 'controller-transforms-observed', f'{r.key}: the controller never applied the helper transforms (fft {seen["fft"]}, ifft {seen["ifft"]})')
     r.check(seen.get('matdiff', 0.0) <= 1e-13 * max(1.0, condJ), 'controller-uses-helper-matrices', f'{r.key}: the matrix handed to apply_matrix differs from the helper transform by {seen.get("matdiff", 0.0):.3e}')
     r.check(seen['worst'] <= 1e-12 * L, 'controller-applies-helper-transforms', f'{r.key}: apply_matrix result differs from matrix x data by {seen["worst"]:.3e} relative to sum_j |mat_ij||x_j|')
+    if itmon['n'] > 0:
+        r.check(itmon['worst'] <= 1e-11 * max(1.0, condP) + 5e-15 * condJ * L, 'paradiag-iteration-is-alpha-circulant-richardson', f'{r.key}: after a ParaDiag iteration the node values differ from U + P_alpha^-1 (b - C U) by {itmon["worst"]:.3e} relative (cond P_alpha {condP:.1e}, conditioning of the weighted transform {condJ:.1e}, {itmon["n"]} iterations watched)')
+        r.count('paradiag_iterations_watched', itmon['n'])
+        r.nontrivial = True
     res = [v for _, v in get_sorted(stats, type='residual_post_step', sortby='time')]
     nit = [v for _, v in get_sorted(stats, type='niter', sortby='time')]
     if not res or max(res) > restol:
